@@ -306,6 +306,12 @@ func TestC06(t *testing.T) {
 				s.Op = "build"
 			}
 			s.Cfg = rapid.SampledFrom([]string{"default", "default", "tiny", "tiny", "literals", "literals", "seed", "seed2", "seed2", "seed3", "seed3", "literals+tiny", "ctrlflow", "ctrlflow", "ctrlflow", "modonly", "modonly", "gg1", "gg1", "gg2", "gg2"}).Draw(t, "cfg")
+			if !progen.PendingEnabled() {
+				// configurations not yet validated on the unchanged tree (DESIGN.md 10.10) fall back to the first set
+				if alt, ok := map[string]string{"ctrlflow": "default", "modonly": "tiny", "gg1": "literals", "gg2": "seed"}[s.Cfg]; ok {
+					s.Cfg = alt
+				}
+			}
 			s.Tag = rapid.IntRange(0, 3).Draw(t, "tag") == 0
 			s.LdX = rapid.IntRange(-2, 3).Draw(t, "ldx")
 			if s.LdX < -1 {
@@ -313,6 +319,9 @@ func TestC06(t *testing.T) {
 			}
 			s.Pkg = rapid.IntRange(0, 2).Draw(t, "pkg")
 			s.Kind = rapid.SampledFrom([]string{"literal", "func", "comment", "directive"}).Draw(t, "kind")
+			if s.Kind == "directive" && !progen.PendingEnabled() {
+				s.Kind = "comment"
+			}
 			c.Steps = append(c.Steps, s)
 		}
 		// two long seeds with a common 8-byte prefix are only interesting together:
